@@ -895,6 +895,11 @@ func c11(c *fw.Ctx) {
 	}
 	c.Floor("symbols_with_exactly_3_check_words", 10)
 	c.Floor("symbols_empty-message", 10)
+	for _, tb := range []azref.Table{azref.Upper, azref.Lower, azref.Mixed, azref.Punct, azref.Digit} {
+		tb := tb
+		c.Run("hl-dense/"+tb.String(), func(r *fw.Rec) { c11DenseRuns(r, tb) })
+	}
+	c.Floor("highlevel_dense_single_code_runs", 600)
 	c.Floor("compact_symbols_with_64_data_words", int64(edge))
 	c.Floor("full_symbols_with_more_than_1024_data_words", 1)
 }
